@@ -81,11 +81,35 @@ type allocCase struct {
 	nVirt     int
 	entryVirt bool
 	errClass  string
+	useDefs   []string // accept-usedef lines: the instruction's declared use/def vs the form's operand actions
 }
+
+// c01UseDefDB, when set, makes runAllocPipeline cross-check the use/def sets the allocator relies on against the
+// read/write specification derived from the form table's operand actions (C02's instruction-level acceptor):
+// the C01 acceptor takes use/def from the implementation, so a wrong use/def extraction would otherwise be invisible here.
+var c01UseDefDB *formsDB
+var c01UseDefRng *rng
 
 func runAllocPipeline(fn *ir.Function) (c allocCase, ok bool) {
 	if !prepLiveness(fn) {
 		return c, false
+	}
+	if c01UseDefDB != nil {
+		for _, i := range fn.Instructions() {
+			m := matchedForm(c01UseDefDB, i.Opcode, i.Suffixes, i.Operands)
+			if m == nil {
+				continue
+			}
+			if m.Features&featCancelling == 0 && !c01UseDefRng.chance(1, 4) {
+				continue
+			}
+			var in, out []reg.Register
+			if _, p := safely(func() error { in, out = i.InputRegisters(), i.OutputRegisters(); return nil }); p {
+				continue
+			}
+			c.useDefs = append(c.useDefs, "accept-usedef "+encUseDef(m, i.Operands)+" => "+
+				encMaskSet(reg.NewMaskSetFromRegisters(in))+" "+encMaskSet(reg.NewMaskSetFromRegisters(out)))
+		}
 	}
 	if err, _ := safely(func() error { return pass.Liveness(fn) }); err != nil {
 		return c, false
@@ -211,6 +235,7 @@ func init() {
 		defer o.close()
 		r := newRng(*f.seed)
 		stats := map[string]int{}
+		c01UseDefDB, c01UseDefRng = db, r.fork()
 		for k := 0; k < *f.n; k++ {
 			g := newFgen(r.fork(), db, allocGenCfg(r, *f.tier))
 			fn := g.generate()
@@ -218,6 +243,10 @@ func init() {
 			if !ok {
 				stats["cfg_rejected"]++
 				continue
+			}
+			for _, l := range c.useDefs {
+				o.emit(l, "ok")
+				stats["usedef_crosschecks"]++
 			}
 			stats["functions"]++
 			if c.errClass != "" {
